@@ -414,6 +414,8 @@ class World:
             col = self.cols[p]
             obs = self.audit_col(p)
             names = set(col.members) | set(obs.get("listed", {})) | set(col.graves[-3:])
+            # the store's own metadata file is never a member: a GET on its name must not serve it
+            names.add(".xandikos")
             for nm in sorted(names):
                 st, etag, body, r = self.fetch(p, nm)
                 obs["members"][nm] = {"status": st, "etag_get": etag, "body": body if st == 200 else None, "sha": sha(body) if st == 200 else None}
